@@ -230,8 +230,10 @@ def main(rep, tier, only):
             rets = [r for r in F.walk(fn.get("body"), into_lambdas=False) if r.get("k") == "return"]
             t = T.show(T.snorm(u, fn, rets[0]["e"])) if rets else ""
             if short == "operator==":
-                ok = "r_a0.array()" in t and "r_a1.array()" in t and "==" in t
-                why = "== does not compare the two arrays (%s)" % t
+                t2 = re.sub(r"\s", "", t)
+                ok = t2 in ("operator==(r_a0.array(),r_a1.array())", "(r_a0.array()==r_a1.array())",
+                            "operator==(r_a1.array(),r_a0.array())", "(r_a1.array()==r_a0.array())")
+                why = "== is not the comparison of the two whole storage arrays (%s): the representation is canonical (PAD), so == compares it as it is" % t
             else:
                 ok = t.startswith("!") and "==" in t
                 why = "!= is not the negation of == (%s)" % t
